@@ -38,6 +38,7 @@ func checkC05(w *World, r *Report) {
 	r.Rule("R05.4", "StartTLS ServerName is the port-less host at every call site", 6)
 	r.Rule("R05.5", "every TLS primitive takes its config from the manager", 6)
 	r.Rule("R05.6", "shared-secret key derivation agrees on both ends", 1)
+	r.Rule("R05.7", "GetTlsConfig hands out a fresh configuration (callers mutate it)", 3)
 
 	c05WhoDisables(w, r)
 	c05ClientAuth(w, r)
@@ -45,6 +46,7 @@ func checkC05(w *World, r *Report) {
 	c05ServerName(w, r)
 	c05ConfigProvenance(w, r)
 	c05SharedSecret(w, r)
+	c05FreshConfig(w, r)
 }
 
 func c05WhoDisables(w *World, r *Report) {
@@ -646,3 +648,87 @@ func c05SharedSecret(w *World, r *Report) {
 }
 
 var _ = token.NoPos
+
+// c05FreshConfig: R05.7 — callers of GetTlsConfig set per-connection fields on
+// the result (ServerName for StartTLS, InsecureSkipVerify for stdio+tls), so
+// every GetTlsConfig must hand out a fresh object: the returned config derives
+// only from an allocation made in the same call (or from another GetTlsConfig
+// call) and that allocation is not also stored into longer-lived state.
+func c05FreshConfig(w *World, r *Report) {
+	ti := w.Interface("internal/util/cert", "TlsConfig")
+	if ti == nil {
+		r.Undecided("R05.7", "anchor", "-", "anchor unresolved: cert.TlsConfig")
+		return
+	}
+	// is the result mutated by callers at all? (then freshness is required)
+	mutated := 0
+	for fn := range allModuleFuncs(w, w.SSA()) {
+		if fn.Pkg != nil && fn.Pkg.Pkg.Path() == modPath+"/internal/util/cert" {
+			continue
+		}
+		allInstrs(fn, func(in ssa.Instruction) {
+			st, ok := in.(*ssa.Store)
+			if !ok {
+				return
+			}
+			fa, ok := st.Addr.(*ssa.FieldAddr)
+			if !ok {
+				return
+			}
+			if pt, ok := fa.X.Type().(*types.Pointer); ok {
+				if n, ok := pt.Elem().(*types.Named); ok && n.Obj().Pkg() != nil && n.Obj().Pkg().Path() == "crypto/tls" && n.Obj().Name() == "Config" {
+					for _, root := range provenance(fa.X, provOpts{}) {
+						if ex, ok := root.(*ssa.Extract); ok {
+							if c, ok := ex.Tuple.(ssa.CallInstruction); ok && sCallee(c) != nil && sCallee(c).Name() == "GetTlsConfig" {
+								mutated++
+							}
+						}
+					}
+				}
+			}
+		})
+	}
+	for _, n := range w.Implementers(ti) {
+		m := methodOf(n, "GetTlsConfig")
+		fn := w.SSAFunc(m)
+		key := "method:" + funcKey(m) + "|fresh"
+		if fn == nil {
+			continue
+		}
+		bad := ""
+		nret := 0
+		allInstrs(fn, func(in ssa.Instruction) {
+			ret, ok := in.(*ssa.Return)
+			if !ok || len(ret.Results) != 2 || isConstNil(ret.Results[0]) {
+				return
+			}
+			nret++
+			for _, root := range provenance(ret.Results[0], provOpts{}) {
+				switch x := root.(type) {
+				case *ssa.Alloc:
+					// must not also be stored into a field / global
+					for _, ref := range *x.Referrers() {
+						if st, ok := ref.(*ssa.Store); ok && st.Val == ssa.Value(x) {
+							switch st.Addr.(type) {
+							case *ssa.FieldAddr, *ssa.Global:
+								bad = fmt.Sprintf("%s: the configuration handed out is also kept in longer-lived state: later callers receive the same object", w.Pos(st.Pos()))
+							}
+						}
+					}
+				case *ssa.Extract:
+					if c, ok := x.Tuple.(ssa.CallInstruction); ok && sCallee(c) != nil && sCallee(c).Name() == "GetTlsConfig" {
+						continue
+					}
+					bad = fmt.Sprintf("%s: the returned configuration is not freshly built in this call", w.Pos(ret.Pos()))
+				case *ssa.Const:
+				default:
+					bad = fmt.Sprintf("%s: the returned configuration is a shared object (%s): callers set ServerName / InsecureSkipVerify on what they receive (%d such site(s)), so one connection's expected host name or disabled verification leaks into every later connection", w.Pos(ret.Pos()), root.String(), mutated)
+				}
+			}
+		})
+		if nret == 0 {
+			continue
+		}
+		r.Check(bad == "", "R05.7", key, w.Pos(m.Pos()), fmt.Sprintf("every call builds a fresh tls.Config (callers mutate the result at %d site(s))", mutated), bad)
+	}
+}
